@@ -101,26 +101,56 @@ def _char_class(src):
     return neg, sorted(set(items))
 
 
-def _validation_precedes_import(fn):
-    """`clean = re.sub(INVALID_MODULE_CHARS, "", name)`; `if not name: raise TranslationError` and
-    `if clean != name: raise TranslationError` both come, at the top level of `load`, before the first statement
-    that contains a call of __import__ (local names are not significant)."""
-    imp_idx = None
-    sub = None  # (clean, name)
-    for st in fn.body:
+def _compiled_patterns(src):
+    """Module-level names of jsonclass.py bound to re.compile(INVALID_MODULE_CHARS)."""
+    out = set()
+    tree = src.module("jsonclass") if src is not None else None
+    if tree is None:
+        return out
+    for st in tree.body:
         if isinstance(st, ast.Assign) and len(st.targets) == 1 and isinstance(st.targets[0], ast.Name) \
                 and isinstance(st.value, ast.Call) and isinstance(st.value.func, ast.Attribute) \
-                and st.value.func.attr == "sub" and len(st.value.args) == 3:
-            a = st.value.args
-            if isinstance(a[0], ast.Name) and a[0].id == "INVALID_MODULE_CHARS" and isinstance(a[1], ast.Constant) \
-                    and a[1].value == "" and isinstance(a[2], ast.Name):
-                sub = (st.targets[0].id, a[2].id)
+                and st.value.func.attr == "compile" and len(st.value.args) >= 1 \
+                and isinstance(st.value.args[0], ast.Name) and st.value.args[0].id == "INVALID_MODULE_CHARS":
+            out.add(st.targets[0].id)
+    return out
+
+
+def _sub_call(value, compiled):
+    """`re.sub(INVALID_MODULE_CHARS, "", name)` or `<compiled INVALID_MODULE_CHARS>.sub("", name)` -> name | None"""
+    if not (isinstance(value, ast.Call) and isinstance(value.func, ast.Attribute) and value.func.attr == "sub"):
+        return None
+    a = value.args
+    if len(a) == 3 and isinstance(a[0], ast.Name) and a[0].id == "INVALID_MODULE_CHARS" and isinstance(a[1], ast.Constant) \
+            and a[1].value == "" and isinstance(a[2], ast.Name) and not value.keywords:
+        return a[2].id
+    if len(a) == 2 and isinstance(value.func.value, ast.Name) and value.func.value.id in compiled \
+            and isinstance(a[0], ast.Constant) and a[0].value == "" and isinstance(a[1], ast.Name) and not value.keywords:
+        return a[1].id
+    return None
+
+
+def _validation_precedes_import(fn, src=None):
+    """`clean = re.sub(INVALID_MODULE_CHARS, "", name)` (or the same through a module-level
+    `re.compile(INVALID_MODULE_CHARS)`); `if not name: raise TranslationError` and
+    `if clean != name: raise TranslationError` both come, at the top level of `load`, before the first statement
+    that contains a call of __import__ or a subscript of `classes` (local names are not significant)."""
+    imp_idx = None
+    sub = None  # (clean, name)
+    compiled = _compiled_patterns(src)
+    for st in fn.body:
+        if isinstance(st, ast.Assign) and len(st.targets) == 1 and isinstance(st.targets[0], ast.Name):
+            name = _sub_call(st.value, compiled)
+            if name is not None:
+                sub = (st.targets[0].id, name)
     if sub is None:
         return False
     kinds = {}
     for idx, st in enumerate(fn.body):
-        if imp_idx is None and any(isinstance(n, ast.Call) and isinstance(n.func, ast.Name) and n.func.id == "__import__"
-                                   for n in ast.walk(st)):
+        resolves = any((isinstance(n, ast.Call) and isinstance(n.func, ast.Name) and n.func.id == "__import__")
+                       or (isinstance(n, ast.Subscript) and isinstance(n.value, ast.Name) and n.value.id == "classes")
+                       for n in ast.walk(st))
+        if imp_idx is None and resolves:
             imp_idx = idx
         if isinstance(st, ast.If) and st.body and isinstance(st.body[0], ast.Raise):
             exc = st.body[0].exc
@@ -138,16 +168,34 @@ def _validation_precedes_import(fn):
     return "chars" in kinds and "empty" in kinds and kinds["chars"] < imp_idx and kinds["empty"] < imp_idx
 
 
+def _jc_subscript(t):
+    return isinstance(t, ast.Subscript) and isinstance(t.value, ast.Name) and t.value.id == "obj" \
+        and isinstance(t.slice, ast.Constant) and t.slice.value == "__jsonclass__"
+
+
 def _restores_in_finally(fn):
-    """The loop calling setattr is the body of a `try` whose `finally` assigns obj["__jsonclass__"]."""
+    """The loop calling setattr is the body of a `try` whose `finally` assigns obj["__jsonclass__"] the very object
+    that was removed: a local bound (once) to `obj.pop("__jsonclass__")`, `obj["__jsonclass__"]` or
+    `obj.get("__jsonclass__")`."""
+    saved = {}
+    for n in ast.walk(fn):
+        if isinstance(n, ast.Assign):
+            for t in n.targets:
+                if isinstance(t, ast.Name):
+                    v = n.value
+                    ok = _jc_subscript(v) or (
+                        isinstance(v, ast.Call) and isinstance(v.func, ast.Attribute) and v.func.attr in ("pop", "get")
+                        and isinstance(v.func.value, ast.Name) and v.func.value.id == "obj" and len(v.args) == 1
+                        and isinstance(v.args[0], ast.Constant) and v.args[0].value == "__jsonclass__")
+                    saved[t.id] = saved.get(t.id, True) and ok
+    saved = set(k for k, ok in saved.items() if ok)
     for n in ast.walk(fn):
         if isinstance(n, ast.Try) and n.finalbody:
             has_loop = any(isinstance(m, ast.Call) and isinstance(m.func, ast.Name) and m.func.id == "setattr"
                            for st in n.body for m in ast.walk(st))
             restores = any(
-                isinstance(st, ast.Assign) and any(
-                    isinstance(t, ast.Subscript) and isinstance(t.value, ast.Name) and t.value.id == "obj"
-                    and isinstance(t.slice, ast.Constant) and t.slice.value == "__jsonclass__" for t in st.targets)
+                isinstance(st, ast.Assign) and any(_jc_subscript(t) for t in st.targets)
+                and isinstance(st.value, ast.Name) and st.value.id in saved
                 for st in n.finalbody)
             if has_loop:
                 return bool(restores)
@@ -242,7 +290,7 @@ def _root(node):
 
 def _fresh_locals(fn):
     """Locals (not parameters) whose every assignment is a fresh container: a display, a comprehension or a
-    call of dict/list/set with no argument, or of _find_fields."""
+    call of dict/list/set/sorted (a new, shallow container whatever the argument) or of _find_fields."""
     params = set(a.arg for a in fn.args.args + fn.args.kwonlyargs)
     fresh = {}
     for n in ast.walk(fn):
@@ -252,8 +300,7 @@ def _fresh_locals(fn):
                     v = n.value
                     ok = isinstance(v, (ast.Dict, ast.List, ast.Set, ast.ListComp, ast.DictComp, ast.SetComp)) or (
                         isinstance(v, ast.Call) and isinstance(v.func, ast.Name)
-                        and ((v.func.id in ("dict", "list", "set") and not v.args and not v.keywords)
-                             or v.func.id == "_find_fields"))
+                        and (v.func.id in ("dict", "list", "set", "sorted", "_find_fields")))
                     fresh[t.id] = fresh.get(t.id, True) and ok
     return set(k for k, v in fresh.items() if v and k not in params)
 
@@ -282,39 +329,53 @@ def _non_fresh_writes(fn):
     return sorted(roots - _fresh_locals(fn))
 
 
+def _mentions(node, ident):
+    return any(isinstance(n, ast.Name) and n.id == ident for n in ast.walk(node))
+
+
 def _handler_first(fn):
-    """The first statement after argument normalisation is the `try:` looking up
-    config.serialize_handlers[type(obj)] (exact type), ahead of every isinstance test; a non-None handler's
-    result is returned as is."""
-    first_try = None
-    first_isinstance = None
-    for idx, st in enumerate(fn.body):
-        if isinstance(st, ast.Try) and first_try is None:
-            ok = False
-            for n in ast.walk(st):
-                if isinstance(n, ast.Subscript) and isinstance(n.value, ast.Attribute) and n.value.attr == "serialize_handlers":
-                    s = n.slice
-                    if isinstance(s, ast.Call) and isinstance(s.func, ast.Name) and s.func.id == "type" and len(s.args) == 1 \
-                            and isinstance(s.args[0], ast.Name) and s.args[0].id == "obj":
-                        ok = True
-            # the local bound to the looked-up handler (its name is not significant)
-            local = None
-            for n in ast.walk(st):
-                if isinstance(n, ast.Assign) and len(n.targets) == 1 and isinstance(n.targets[0], ast.Name) \
-                        and isinstance(n.value, ast.Subscript) and isinstance(n.value.value, ast.Attribute) \
-                        and n.value.value.attr == "serialize_handlers":
-                    local = n.targets[0].id
-            returns_verbatim = local is not None and any(
-                isinstance(n, ast.Return) and isinstance(n.value, ast.Call) and isinstance(n.value.func, ast.Name)
-                and n.value.func.id == local for n in ast.walk(st))
-            if ok and returns_verbatim:
-                first_try = idx
-        if first_isinstance is None and any(isinstance(n, ast.Call) and isinstance(n.func, ast.Name) and n.func.id == "isinstance"
-                                            for n in ast.walk(st)):
-            first_isinstance = idx
-    if first_try is None or first_isinstance is None:
-        return None
-    return first_try < first_isinstance
+    """The first statement after the docstring and the argument normalisation (plain assignments to names other than
+    `obj` whose value does not mention `obj`) is the `try:` looking up config.serialize_handlers[type(obj)] (exact
+    type); a non-None handler's result is returned as is.  Anything else ahead of it — an `if`, an `isinstance`
+    test, a `type(obj) is …` shortcut, an early return — makes the fact false."""
+    for st in fn.body:
+        if isinstance(st, ast.Expr) and isinstance(st.value, ast.Constant):
+            continue  # docstring
+        if isinstance(st, (ast.Assign, ast.AnnAssign)):
+            targets = st.targets if isinstance(st, ast.Assign) else [st.target]
+            if all(isinstance(t, ast.Name) and t.id != "obj" for t in targets) and st.value is not None \
+                    and not _mentions(st.value, "obj"):
+                continue
+            return False
+        if not isinstance(st, ast.Try):
+            return False
+        ok = False
+        for n in ast.walk(st):
+            if isinstance(n, ast.Subscript) and isinstance(n.value, ast.Attribute) and n.value.attr == "serialize_handlers":
+                sl = n.slice
+                if isinstance(sl, ast.Call) and isinstance(sl.func, ast.Name) and sl.func.id == "type" and len(sl.args) == 1 \
+                        and isinstance(sl.args[0], ast.Name) and sl.args[0].id == "obj":
+                    ok = True
+        # the local bound to the looked-up handler (its name is not significant)
+        local = None
+        for n in ast.walk(st):
+            if isinstance(n, ast.Assign) and len(n.targets) == 1 and isinstance(n.targets[0], ast.Name) \
+                    and isinstance(n.value, ast.Subscript) and isinstance(n.value.value, ast.Attribute) \
+                    and n.value.value.attr == "serialize_handlers":
+                local = n.targets[0].id
+        returns_verbatim = local is not None and any(
+            isinstance(n, ast.Return) and isinstance(n.value, ast.Call) and isinstance(n.value.func, ast.Name)
+            and n.value.func.id == local for n in ast.walk(st))
+        # the only condition on the way to that return is `<local> is not None`
+        conds = [n.test for n in ast.walk(st) if isinstance(n, ast.If)]
+        plain_guard = all(
+            isinstance(t, ast.Compare) and isinstance(t.left, ast.Name) and t.left.id == local and len(t.ops) == 1
+            and isinstance(t.ops[0], ast.IsNot) and isinstance(t.comparators[0], ast.Constant)
+            and t.comparators[0].value is None for t in conds)
+        if not ok:
+            return None
+        return bool(returns_verbatim and plain_guard)
+    return None
 
 
 def facts(src):
@@ -341,8 +402,8 @@ def facts(src):
     hf = _handler_first(dump) if dump is not None else None
     out.append(Fact(
         "handlerLookupFirst", "Bool", None if hf is None else lean_bool(hf), ["C20"],
-        "jsonclass.dump: config.serialize_handlers[type(obj)] (exact type) is consulted before every isinstance test "
-        "and a non-None handler's result is returned as is", json_value=hf))
+        "jsonclass.dump: the lookup config.serialize_handlers[type(obj)] (exact type) is the first statement after the "
+        "normalisation of the arguments and a non-None handler's result is returned as is", json_value=hf))
 
     cc = _char_class(src)
     out.append(Fact(
@@ -350,7 +411,7 @@ def facts(src):
         None if cc is None else "(%s, %s)" % (lean_bool(cc[0]), lean_list("(%d, %d)" % r for r in cc[1])),
         ["C08"], "INVALID_MODULE_CHARS as (negated?, code point ranges)", json_value=None if cc is None else [cc[0], cc[1]]))
 
-    vp = _validation_precedes_import(load) if load is not None else None
+    vp = _validation_precedes_import(load, src) if load is not None else None
     out.append(Fact(
         "validationPrecedesImport", "Bool", None if vp is None else lean_bool(vp), ["C08"],
         "jsonclass.load: the empty-name and invalid-character TranslationError tests (on re.sub(INVALID_MODULE_CHARS, \"\", name)) "
@@ -359,7 +420,8 @@ def facts(src):
     rf = _restores_in_finally(load) if load is not None else None
     out.append(Fact(
         "loadRestoresInFinally", "Bool", None if rf is None else lean_bool(rf), ["C15"],
-        "jsonclass.load: the setattr loop is the body of a try whose finally restores obj[\"__jsonclass__\"]", json_value=rf))
+        "jsonclass.load: the setattr loop is the body of a try whose finally assigns obj[\"__jsonclass__\"] the object that was "
+        "popped", json_value=rf))
 
     tt = _type_tables(src)
     out.append(Fact(
